@@ -333,7 +333,7 @@ Definition aremove (a : option array) (i : Z) : bool * bool * option array :=
 
 (* array.next: returns (next, v, ok) *)
 Fixpoint anextLoop (fuel : nat) (vs : list value) (len i : nat) : res (nat * value) :=
-  if i =? len then Ok (0, VNil)
+  if len <=? i then Ok (0, VNil)          (* if i >= int64(a.len) { return } *)
   else match fuel with
        | O => Fuel
        | S f =>
@@ -343,7 +343,7 @@ Fixpoint anextLoop (fuel : nat) (vs : list value) (len i : nat) : res (nat * val
 Definition anext (a : option array) (i : Z) : res (nat * value * bool) :=
   match a with
   | Some ar =>
-    if ((0 <=? i) && (i <=? Z.of_nat (alen ar)))%Z then
+    if ((0 <=? i) && (i <=? Z.of_nat (length (avalues ar))))%Z then   (* any index of the array *)
       '(j, v) <- anextLoop (S (alen ar)) (avalues ar) (alen ar) (Z.to_nat i) ;; Ok (j, v, true)
     else Ok (0, VNil, false)
   | None => Ok (0, VNil, false)
@@ -425,6 +425,28 @@ Definition mget (t : table) (k : value) : res value :=
   | None => hfind (hpart t) k
   end.
 
+(* hashTable.setExisting / insertNew (added by the repair of mixedTable.insert) *)
+Definition hsetExisting (h : option htable) (k v : value) : res (option htable) :=
+  match h with
+  | None => Ok None
+  | Some t =>
+    r <- findSlot (slots t) (hmask t) k ;;
+    match r with
+    | None => Ok None
+    | Some i => it <- getS (slots t) i ;; sl' <- setS (slots t) i (set_val it v) ;;
+                Ok (Some (mkH sl' (nextFree t) (hbase t)))
+    end
+  end.
+
+Definition hinsertNew (h : option htable) (k v : value) : res htable :=
+  match h with
+  | None => Panic
+  | Some t =>
+    '(sl, b) <- insertNew (slots t) (hmask t) k v (nextFree t) ;;
+    if b then nf <- updateNextFree sl (nextFree t) ;; Ok (mkH sl nf (hbase t))
+    else Ok (mkH sl (nextFree t) (hbase t))
+  end.
+
 Definition minsert (t : table) (k v : value) : res table :=
   let oi := toIntNoString k in
   let try (t : table) : option table :=
@@ -436,13 +458,18 @@ Definition minsert (t : table) (k v : value) : res table :=
   | Some t' => Ok t'
   | None =>
     let k' := match oi with Some i => VInt i | None => k end in
-    if hfull (hpart t) then
-      t1 <- mgrow t ;;
-      match try t1 with
-      | Some t' => Ok t'
-      | None => h <- hset (hpart t1) k' v ;; Ok (mkT (Some h) (apart t1))
-      end
-    else h <- hset (hpart t) k' v ;; Ok (mkT (Some h) (apart t))
+    e <- hsetExisting (hpart t) k' v ;;
+    match e with
+    | Some h' => Ok (mkT (Some h') (apart t))       (* existing slot: nothing moves *)
+    | None =>
+      if hfull (hpart t) then
+        t1 <- mgrow t ;;
+        match try t1 with
+        | Some t' => Ok t'
+        | None => h <- hinsertNew (hpart t1) k' v ;; Ok (mkT (Some h) (apart t1))
+        end
+      else h <- hinsertNew (hpart t) k' v ;; Ok (mkT (Some h) (apart t))
+    end
   end.
 
 Definition mreset (t : table) (k v : value) : res (table * bool) :=
@@ -450,10 +477,7 @@ Definition mreset (t : table) (k v : value) : res (table * bool) :=
   | Some i =>
     let '(ok, wasSet, a) := aresetValue (apart t) i v in
     if ok then Ok (mkT (hpart t) a, wasSet)
-    else
-      (* hashtable.go:61-68: "ok, wasSet = t.array.resetValue(i, v)" overwrites ok, so the following
-         "if ok { k = IntValue(i) }" is dead: the hash part is searched with the ORIGINAL key *)
-      '(h, b) <- hreset (hpart t) k v ;; Ok (mkT h (apart t), b)
+    else '(h, b) <- hreset (hpart t) (VInt i) v ;; Ok (mkT h (apart t), b)
   | None => '(h, b) <- hreset (hpart t) k v ;; Ok (mkT h (apart t), b)
   end.
 
@@ -493,7 +517,8 @@ Definition mnext (t : table) (k : value) : res (value * value * bool) :=
     end
   else
     match toIntNoString k with
-    | Some i => viaArray i (VInt i)
+    | Some i => if (i <? 1)%Z then hnext (hpart t) (VInt i)   (* only positive integers are array keys *)
+                else viaArray i (VInt i)
     | None => hnext (hpart t) k
     end.
 
